@@ -52,6 +52,7 @@ class TracepointConfigService:
     def __init__(self) -> None:
         """Create new tracepoint config service."""
         self._custom: List['Trigger'] = []
+        self._custom_ids: Dict[str, 'Trigger'] = {}
         self._tracepoint_config: List['Trigger'] = []
         self._current_hash = None
         self._last_update = 0
@@ -161,13 +162,16 @@ class TracepointConfigService:
         :param metrics: the tracepoint metrics
         :return: the new TracePointConfig
         """
-        config = build_trigger(str(uuid.uuid4()), path, line, args, watches, metrics)
+        tp_id = str(uuid.uuid4())
+        config = build_trigger(tp_id, path, line, args, watches, metrics)
         if config is None:
             # do not register something we cannot act on (it would end up in the config given to the listeners)
             raise ValueError("Cannot process tracepoint with args: %s" % args)
         self._custom.append(config)
+        # the id of the location (file#line) is shared by all tracepoints on that line, so identify by tracepoint id
+        self._custom_ids[tp_id] = config
         self.__trigger_update(None, None)
-        return config.id
+        return tp_id
 
     def remove_custom(self, _id: str):
         """
@@ -175,8 +179,11 @@ class TracepointConfigService:
 
         :param _id: the id of the config to remove
         """
+        config = self._custom_ids.pop(_id, None)
+        if config is None:
+            return
         for idx, cfg in enumerate(self._custom):
-            if cfg.id == _id:
+            if cfg is config:
                 del self._custom[idx]
                 self.__trigger_update(None, None)
                 return
